@@ -174,6 +174,11 @@ class WebSocketWriter:
         """Get or create a compressor object for the given compression level."""
         if compress:
             # Do not set self._compress if compressing is for this frame
+            # The peer inflates every message with one shared context, so
+            # after a message from this one-off compressor the shared
+            # compressor's window no longer matches the peer's: drop it
+            # so the next message starts a fresh deflate context.
+            self._compressobj = None
             return ZLibCompressor(
                 level=ZLibBackend.Z_BEST_SPEED,
                 wbits=-compress,
